@@ -126,4 +126,47 @@ func TestPropProgramsPadded(t *testing.T) {
 	})
 }
 
+// Every '+' chain of 3 and 4 operands over eight operand shapes (effectful scalar, list/tuple display with an
+// effectful element, string/list/tuple literal, variables): the compiler folds runs of literals and displays in
+// such chains; many of the chains fail at some '+', and which effects happened before is compared.
+func TestPropPlusChains(t *testing.T) {
+	shapes := []string{`t("%d", 1)`, `[t("%d", 2)]`, `(t("%d", 3),)`, `"s%d"`, `[%d]`, `(%d,)`, `L`, `N`}
+	vk.S.SetExhaustive("plus-chains-3-4-operands-x-8-shapes", true)
+	vk.Enum(t, subProgram, func(yield func(gen.Program) bool) {
+		i := 0
+		for n := 3; n <= 4; n++ {
+			total := 1
+			for k := 0; k < n; k++ {
+				total *= len(shapes)
+			}
+			for code := 0; code < total; code++ {
+				i++
+				if !vk.Mine(i) {
+					continue
+				}
+				var ops []string
+				c := code
+				for k := 0; k < n; k++ {
+					sh := shapes[c%len(shapes)]
+					c /= len(shapes)
+					if strings.Contains(sh, "%d") {
+						sh = fmt.Sprintf(sh, k)
+					}
+					ops = append(ops, sh)
+				}
+				chain := strings.Join(ops, " + ")
+				src := "L = [7]\nN = 5\ndef f(L, N):\n    return " + chain + "\n"
+				if code%2 == 0 {
+					src += "R = f([8], 6)\n"
+				} else {
+					src += "R = " + chain + "\n"
+				}
+				if !yield(gen.Program{Src: src, Features: []string{"plus-chain", "plus-chain-enum"}}) {
+					return
+				}
+			}
+		}
+	})
+}
+
 func TestReplay(t *testing.T) { vk.Replay(t) }
